@@ -1,105 +1,142 @@
-"""Reference model for a Kademlia routing table (written from the Kademlia paper, section 2.1/2.2/2.4,
-not from lbry code).  Pure Python integers; ids are big-endian byte strings of BITS/8 bytes.
+"""Kademlia reference (E3): written from the Kademlia paper / BEP-5 conventions and the IANA special-purpose
+IPv4 registry (RFC 6890), not from lbry code.  Pure Python, no lbry import.
 
-* xor distance           d(a, b) = int(a) xor int(b)
-* closest-K              the `count` contacts with the smallest d(key, .), ascending, after removing the
-                         excluded ids (ties are impossible: xor with a fixed key is a bijection)
-* bucket-cover predicate a list of half-open ranges [lo, hi) partitions [0, 2^BITS) exactly once iff it is
-                         sorted, starts at 0, ends at 2^BITS and every hi equals the next lo (and lo < hi)
-* placement predicate    a contact belongs to the one range containing d(own, contact)
+* xor_distance / closest_k : brute-force closest-K over a plain collection of ids.
+* ContactSet               : "set of contacts" reference - a flat set with id and endpoint uniqueness, answering
+                             closest-K by sorting everything (what a routing table must agree with).
+* is_public_ipv4 / is_valid_peer_address : independent "well-formed public peer address" predicate.
+* selftest()               : validates the above on hand-computed vectors.
 """
 
-BITS = 384
+HASH_BYTES = 48            # sha384 ids (LBRY); the functions work for any fixed width
 
 
-def to_int(b):
-    return int.from_bytes(b, 'big')
-
-
-def to_id(n, bits=BITS):
-    return n.to_bytes(bits // 8, 'big')
-
-
-def xor_distance(a, b):
+def xor_distance(a: bytes, b: bytes) -> int:
     if len(a) != len(b):
-        raise ValueError('length mismatch')
-    return to_int(a) ^ to_int(b)
+        raise ValueError('ids of different width')
+    return int.from_bytes(a, 'big') ^ int.from_bytes(b, 'big')
 
 
-def closest(contact_ids, key, count, exclude=()):
-    """contact_ids: iterable of ids -> list of the `count` ids nearest `key`, ascending by distance."""
-    k = to_int(key)
+def closest_k(key: bytes, ids, k: int, exclude=()):
+    """The k ids closest to key by XOR metric (ties impossible: XOR with a fixed key is injective)."""
     ex = set(exclude)
-    ids = [c for c in contact_ids if c not in ex]
-    ids.sort(key=lambda c: to_int(c) ^ k)
-    return ids[:count]
+    cand = [i for i in set(ids) if i not in ex]
+    cand.sort(key=lambda i: xor_distance(key, i))
+    return cand[:k]
 
 
-def cover_defect(ranges, bits=BITS):
-    """ranges: list of (lo, hi) in table order.  None if they cover [0, 2^bits) exactly once, else a short
-    description of the first defect (kind, signed size, position)."""
-    if not ranges:
-        return ('empty', 0, 0)
-    if ranges[0][0] != 0:
-        return ('start', ranges[0][0], 0)
-    for i, (lo, hi) in enumerate(ranges):
-        if not lo < hi:
-            return ('degenerate', hi - lo, i)
-        if i + 1 < len(ranges):
-            nlo = ranges[i + 1][0]
-            if nlo > hi:
-                return ('gap', nlo - hi, i)
-            if nlo < hi:
-                return ('overlap', hi - nlo, i)
-    if ranges[-1][1] != 2 ** bits:
-        return ('end', ranges[-1][1] - 2 ** bits, len(ranges) - 1)
-    return None
+class ContactSet:
+    """Flat reference of a contact table: at most one contact per node id and per (address, port)."""
+
+    def __init__(self, own_id: bytes):
+        self.own_id = own_id
+        self.by_id = {}          # node_id -> (address, port)
+
+    def add(self, node_id: bytes, address: str, port: int):
+        if node_id == self.own_id:
+            return False
+        for i, ep in list(self.by_id.items()):
+            if ep == (address, port) and i != node_id:
+                del self.by_id[i]                     # an endpoint speaks for one id only
+        self.by_id[node_id] = (address, port)
+        return True
+
+    def remove(self, node_id: bytes):
+        self.by_id.pop(node_id, None)
+
+    def __contains__(self, node_id):
+        return node_id in self.by_id
+
+    def __len__(self):
+        return len(self.by_id)
+
+    def closest(self, key: bytes, k: int, exclude=()):
+        return closest_k(key, self.by_id.keys(), k, exclude=set(exclude) | {self.own_id})
 
 
-def covering_index(ranges, distance):
-    """indices of all ranges containing `distance` (exactly one for a well-formed table)."""
-    return [i for i, (lo, hi) in enumerate(ranges) if lo <= distance < hi]
+# ---- address validity -----------------------------------------------------------------------------------------
+# IANA IPv4 special-purpose address registry (RFC 6890 and updates) + multicast (RFC 5771) + class E.
+_SPECIAL_V4 = [
+    ('0.0.0.0', 8), ('10.0.0.0', 8), ('100.64.0.0', 10), ('127.0.0.0', 8), ('169.254.0.0', 16),
+    ('172.16.0.0', 12), ('192.0.0.0', 24), ('192.0.2.0', 24), ('192.88.99.0', 24), ('192.168.0.0', 16),
+    ('198.18.0.0', 15), ('198.51.100.0', 24), ('203.0.113.0', 24), ('224.0.0.0', 4), ('240.0.0.0', 4),
+]
 
 
-def kth_closest_distance(own, contact_ids, k):
-    """distance of the k-th closest contact to own (1-based); None if fewer than k contacts."""
-    ds = sorted(xor_distance(own, c) for c in contact_ids)
-    return ds[k - 1] if len(ds) >= k else None
+def parse_dotted_quad(address):
+    """int value of a strict dotted quad (four decimal fields 0..255, no signs/space/leading zeros) or None."""
+    if not isinstance(address, str):
+        return None
+    parts = address.split('.')
+    if len(parts) != 4:
+        return None
+    v = 0
+    for p in parts:
+        if not p or len(p) > 3 or any(c not in '0123456789' for c in p):
+            return None
+        if len(p) > 1 and p[0] == '0':
+            return None
+        n = int(p)
+        if n > 255:
+            return None
+        v = (v << 8) | n
+    return v
+
+
+def _net(addr, bits):
+    return parse_dotted_quad(addr) >> (32 - bits), bits
+
+
+_SPECIAL = [_net(a, b) for a, b in _SPECIAL_V4]
+
+
+def is_public_ipv4(address) -> bool:
+    v = parse_dotted_quad(address)
+    if v is None:
+        return False
+    return not any((v >> (32 - bits)) == prefix for prefix, bits in _SPECIAL)
+
+
+def is_valid_port(port, low=1024) -> bool:
+    return isinstance(port, int) and not isinstance(port, bool) and low <= port <= 65535
+
+
+def is_valid_peer_address(address, port) -> bool:
+    """A peer worth dialling: public unicast IPv4 and a non-privileged 16-bit port."""
+    return is_public_ipv4(address) and is_valid_port(port)
 
 
 def selftest():
-    # the worked example of the Kademlia paper's figure 1 style tree, 4-bit ids
-    def i4(n):
-        return to_id(n, 8)   # one byte ids for the test
-    own = i4(0b0011)
-    ids = [i4(x) for x in (0b0001, 0b0010, 0b0100, 0b0111, 0b1000, 0b1111)]
-    assert xor_distance(own, i4(0b0001)) == 0b0010
-    assert xor_distance(own, i4(0b0010)) == 0b0001
-    # nearest to key 0b0110: 0111 (1), 0100 (2), 0010 (4), 0001 (7), 1111 (9), 1000 (14)
-    assert closest(ids, i4(0b0110), 3) == [i4(0b0111), i4(0b0100), i4(0b0010)]
-    assert closest(ids, i4(0b0110), 3, exclude=[i4(0b0111)]) == [i4(0b0100), i4(0b0010), i4(0b0001)]
-    assert closest(ids, i4(0b0110), 10) == [i4(x) for x in (0b0111, 0b0100, 0b0010, 0b0001, 0b1111, 0b1000)]
-    # xor metric facts from the paper: d(x,x)=0, symmetry, triangle inequality, unidirectionality
-    for a in range(16):
-        assert xor_distance(i4(a), i4(a)) == 0
-        seen = set()
-        for b in range(16):
-            assert xor_distance(i4(a), i4(b)) == xor_distance(i4(b), i4(a))
-            seen.add(xor_distance(i4(a), i4(b)))
-            for c in range(16):
-                assert xor_distance(i4(a), i4(c)) <= xor_distance(i4(a), i4(b)) + xor_distance(i4(b), i4(c))
-        assert len(seen) == 16
-    full = 2 ** 8
-    assert cover_defect([(0, 64), (64, 128), (128, full)], 8) is None
-    assert cover_defect([(0, 63), (64, full)], 8) == ('gap', 1, 0)
-    assert cover_defect([(0, 65), (64, full)], 8) == ('overlap', 1, 0)
-    assert cover_defect([(1, full)], 8)[0] == 'start'
-    assert cover_defect([(0, full - 1)], 8)[0] == 'end'
-    assert cover_defect([(0, 0), (0, full)], 8)[0] == 'degenerate'
-    assert covering_index([(0, 64), (64, 128), (128, full)], 64) == [1]
-    assert covering_index([(0, 63), (64, full)], 63) == []
-    assert kth_closest_distance(own, ids, 2) == 0b0010
-    assert kth_closest_distance(own, ids, 7) is None
+    a = bytes(47) + b'\x01'
+    b = bytes(47) + b'\x02'
+    c = bytes(47) + b'\x04'
+    z = bytes(48)
+    assert xor_distance(a, b) == 3 and xor_distance(a, a) == 0
+    assert closest_k(z, [c, b, a], 2) == [a, b]
+    assert closest_k(b, [c, b, a], 3) == [b, a, c]          # 0, 3, 6
+    assert closest_k(b, [c, b, a], 3, exclude=[b]) == [a, c]
+    assert closest_k(c, [a, b], 8) == [a, b]                # 5, 6
+    s = ContactSet(z)
+    assert not s.add(z, '1.2.3.4', 4444)
+    s.add(a, '1.2.3.4', 4444)
+    s.add(b, '1.2.3.4', 4444)                               # same endpoint, new id displaces
+    assert a not in s and b in s and len(s) == 1
+    s.add(b, '1.2.3.5', 4444)                               # same id, new endpoint: update
+    assert len(s) == 1 and s.by_id[b] == ('1.2.3.5', 4444)
+    s.add(c, '1.2.3.6', 4444)
+    assert s.closest(z, 1) == [b] and s.closest(c, 8, exclude=[c]) == [b]
+    for good in ('1.2.3.4', '8.8.8.8', '100.63.255.255', '100.128.0.0', '172.15.0.1', '172.32.0.1', '192.0.1.1',
+                 '198.17.255.255', '198.20.0.0', '223.255.255.255', '9.255.255.255', '11.0.0.0'):
+        assert is_public_ipv4(good), good
+    for bad in ('0.0.0.0', '0.1.2.3', '10.0.0.1', '100.64.0.1', '100.127.255.255', '127.0.0.1', '169.254.1.1',
+                '172.16.0.1', '172.31.255.255', '192.0.0.1', '192.0.2.1', '192.88.99.1', '192.168.1.1', '198.18.0.1',
+                '198.19.255.255', '198.51.100.7', '203.0.113.9', '224.0.0.1', '239.255.255.255', '240.0.0.1',
+                '255.255.255.255', '1.2.3', '1.2.3.4.5', '1.2.3.256', '01.2.3.4', '1.2.3.-4', ' 1.2.3.4', '1.2.3.4 ',
+                '', '::1', 'a.b.c.d', None, 16909060, b'1.2.3.4'):
+        assert not is_public_ipv4(bad), bad
+    assert is_valid_peer_address('1.2.3.4', 1024) and is_valid_peer_address('1.2.3.4', 65535)
+    for p in (0, 1, 1023, 65536, -1, True, None, '3333', 3333.0):
+        assert not is_valid_peer_address('1.2.3.4', p), p
     return True
 
 
